@@ -19,6 +19,8 @@ import (
 //	       x no <item/> at all          d a <destroy/> element follows
 //	       e an unknown element precedes the item
 //	       s <show/>, <status/>, <priority/> and a caps element precede the muc#user x in the presence
+//	       t the presence carries the muc#user x TWICE (round F): the multiplexer runs the handler once
+//	         per child it is registered for, each time with the whole presence
 type sentItem struct {
 	aff, role string // attribute values; "" = absent
 	codes     []int
@@ -27,6 +29,7 @@ type sentItem struct {
 	destroy   bool
 	unknown   bool
 	siblings  bool
+	twice     bool
 	raw       string
 }
 
@@ -73,6 +76,8 @@ func parsePayload(p string) (*sentItem, bool) {
 			it.unknown = true
 		case 's':
 			it.siblings = true
+		case 't':
+			it.twice = true
 		default:
 			return nil, false
 		}
@@ -126,7 +131,22 @@ func (it *sentItem) xml() string {
 		sb.WriteString(`<destroy jid="elsewhere@conf.example.net"><reason>moved</reason></destroy>`)
 	}
 	sb.WriteString(`</x>`)
+	if it.twice {
+		one := sb.String()
+		if it.siblings {
+			one = one[strings.Index(one, `<x xmlns="http://jabber.org/protocol/muc#user">`):]
+		}
+		sb.WriteString(one)
+	}
 	return sb.String()
+}
+
+// times: how often the handler runs for the presence (once per muc#user child).
+func (it *sentItem) times() int {
+	if it.twice {
+		return 2
+	}
+	return 1
 }
 
 // differs compares what HandleUserPresence was given with what was sent; "" if equal.
@@ -159,7 +179,7 @@ func (it *sentItem) differs(got muc.Item) string {
 var payloadAffs = []byte("-noamc")
 var payloadRoles = []byte("-nmpv")
 var payloadCodes = []string{"", "110", "110+210", "301", "307", "303", "110+307", "321", "322", "332", "110+301", "100+110+170"}
-var payloadFlags = []string{"", "", "", "r", "x", "d", "e", "s", "rs", "re"}
+var payloadFlags = []string{"", "", "", "r", "x", "d", "e", "s", "rs", "re", "t", "st"}
 
 // allPayloads: every affiliation x role (with the plain flags) plus every code list / flag set
 // with a few affiliation/role pairs — the small-scope enumeration of the payload dimension.
@@ -171,7 +191,7 @@ func allPayloads() []string {
 		}
 	}
 	for _, c := range payloadCodes {
-		for _, f := range []string{"", "r", "x", "d", "e", "s"} {
+		for _, f := range []string{"", "r", "x", "d", "e", "s", "t"} {
 			out = append(out, "cn"+c+f, "mp"+c+f)
 		}
 	}
